@@ -464,39 +464,29 @@ func checkTemplatePartition(c *Ctx, ts *tmplSet) {
 		return
 	}
 	rendObj := info.Defs[ts.rendFn.Name]
+	// how often each template is named in the generator: as a string constant anywhere in its functions (a literal in a list
+	// that is ranged over, an argument of a helper, ...). The way the names reach the rendering function does not matter.
 	count := map[string]int{}
 	AllFuncDecls(gp, func(fd *ast.FuncDecl) {
 		if fd.Body == nil {
 			return
 		}
 		ast.Inspect(fd.Body, func(n ast.Node) bool {
-			rs, ok := n.(*ast.RangeStmt)
-			if !ok {
-				return true
-			}
-			cl, ok := ast.Unparen(rs.X).(*ast.CompositeLit)
-			if !ok {
-				return true
-			}
-			// for _, name := range []string{...} { g.renderTemplate(name, data) }
-			calls := false
-			ast.Inspect(rs.Body, func(m ast.Node) bool {
-				if call, ok := m.(*ast.CallExpr); ok && objOf(info, call.Fun) == rendObj {
-					calls = true
-				}
-				return true
-			})
-			if !calls {
-				return true
-			}
-			for _, e := range cl.Elts {
-				if s, ok := constStr(info, e); ok {
-					count[s]++
+			if lit, ok := n.(*ast.BasicLit); ok && lit.Kind == token.STRING {
+				if v, ok := constStr(info, lit); ok {
+					if _, isTmpl := ts.files[v]; isTmpl {
+						count[v]++
+					}
 				}
 			}
 			return true
 		})
 	})
+	_ = rendObj
+	if len(count) == 0 {
+		c.Undecided("R8.6", "every template is rendered exactly once", ts.rendFn.Pos(), "the generator does not name its templates by string constants: which templates are rendered is not decided")
+		return
+	}
 	var names []string
 	for n := range ts.files {
 		names = append(names, n)
